@@ -240,7 +240,13 @@ def validator_strings(ctx):
         if s not in seen:
             seen.add(s)
             yield s
-    for s in ["", "0" * 32, "F" * 32, "0x" + "0" * 30, " " * 32, "+" + "1" * 31, "1_" * 16, "１" * 32]:
+    fixed = ["", "0" * 32, "F" * 32, "0x" + "0" * 30, " " * 32, "+" + "1" * 31, "1_" * 16, "１" * 32]
+    # a correct digest (and one a character short) with one control / separator character before or after it: what a script
+    # passes when it reads a .md5 side-car file without stripping it
+    for v in ("0123456789abcdef0123456789abcdef", "ABCDEF0123456789abcdef0123456789", "d41d8cd98f00b204e9800998ecf8427e"):
+        for c in ("\n", "\r", "\r\n", "\t", "\x0b", "\x0c", "\x00", "\x1c", "\x1f", "\x85", "\u2028", "\u00a0", "  ", " \n"):
+            fixed += [v + c, c + v, v[:31] + c, c + v[1:], v[:16] + c + v[16:]]
+    for s in fixed:
         if s not in seen:
             seen.add(s)
             yield s
